@@ -6,14 +6,15 @@ PATCH="$1"; shift
 WT=/tmp/wt-confirm
 rsync -a --exclude target /verif/sim/ /tmp/sim-eval/sim/ && sed -i 's#/repo/#/tmp/wt-confirm/#g' /tmp/sim-eval/sim/Cargo.toml
 cp /verif/known_findings.json /tmp/sim-eval/vdir/
-git -C $WT checkout -q -- . && git -C $WT clean -fdq -e target -e target-demo
-if ! git -C $WT apply "$PATCH"; then echo "patch does not apply"; exit 2; fi
-if ! (cd /tmp/sim-eval/sim && cargo build --release --offline >/tmp/sim-eval/build.log 2>&1); then echo "BUILD FAILED"; tail -5 /tmp/sim-eval/build.log; git -C $WT checkout -q -- .; exit 2; fi
+git -C $WT reset -q --hard && git -C $WT clean -fdq -e target -e target-demo
+# (patches made against an earlier commit of the same history: fall back to a 3-way merge)
+if ! git -C $WT apply "$PATCH" 2>/dev/null && ! git -C $WT apply -3 "$PATCH" >/dev/null 2>&1; then echo "patch does not apply"; git -C $WT reset -q --hard; exit 2; fi
+if ! (cd /tmp/sim-eval/sim && cargo build --release --offline >/tmp/sim-eval/build.log 2>&1); then echo "BUILD FAILED"; tail -5 /tmp/sim-eval/build.log; git -C $WT reset -q --hard; exit 2; fi
 for P in "$@"; do
   out=$(VERIF_DIR=/tmp/sim-eval/vdir VERIF_NO_EVIDENCE=1 /tmp/sim-eval/sim/target/release/idsim check "$P" "${TIER:-quick}" 2>&1); rc=$?
   first=$(echo "$out" | grep -m1 '^VIOLATION' | cut -c1-420)
   echo "[$P] exit=$rc $(echo "$out" | grep -c '^VIOLATION') violation line(s): $first"
   echo "$out" | grep -E 'HARNESS-ERROR' | head -2 | cut -c1-300
 done
-git -C $WT checkout -q -- . && git -C $WT clean -fdq -e target -e target-demo
+git -C $WT reset -q --hard && git -C $WT clean -fdq -e target -e target-demo
 rm -rf /tmp/sim-eval/vdir/replays
